@@ -68,7 +68,7 @@ def monitor(state, op, o):
     return None
 
 
-IN_CLASS = ["vs_script", "vs_fluid", "vs_multi"]
+IN_CLASS = ["vs_script", "vs_fluid", "vs_multi", "vs_semi", "vs_semif"]
 
 
 def histories(c, quick):
@@ -78,6 +78,8 @@ def histories(c, quick):
         s = sc.SCHEMAS[sid]
         rows_for[sid] = sc.gen_table(c.rng, s["alphabet"])
         letters = [ord(x) for x in s["alphabet"][:2]]
+        if not s["alphabet"].isalpha():      # a spelling key outside a-z, where a syllable starts and elsewhere
+            letters = [ord(s["alphabet"][0]), ord(next(ch for ch in s["alphabet"] if not ch.isalpha()))]
         alphabet = letters + edit_codes
         depth = 3 if quick else 4
         for n in range(1, depth + 1):
@@ -113,7 +115,7 @@ def run(c):
     cov = vlib.proof_cov(audit, "lake build RimeModel.Props.C05 && #print axioms (all theorems) && forbidden-token scan"
                          + ("" if quick else " && leanchecker"), vlib.STD_TRUSTED + ["translator gen/keymaps.py"])
     cov.update({"evaluations": stats["ops"], "distinct_nontrivial": stats["distinct_nontrivial"],
-                "rule": "all key sequences of length %d over {2 letters, BackSpace, Delete, KP_Left, KP_Right, Right, Home, End, Escape} plus seeded random long sequences, on the 3 synthetic schemas of the class (express and fluid editors); non-trivial = observation in a composing state; distinct by (schema, observation line)" % (3 if quick else 4),
+                "rule": "all key sequences of length %d over {2 letters, BackSpace, Delete, KP_Left, KP_Right, Right, Home, End, Escape} plus seeded random long sequences, on the 5 synthetic schemas of the class (express and fluid editors); non-trivial = observation in a composing state; distinct by (schema, observation line)" % (3 if quick else 4),
                 "samples": stats["samples"] or [{"schema": hs[0][0], "ops": hs[0][1]}], "histories": stats["histories"],
                 "op_kind_distribution": stats["kinds"], "model_impl_disagreements": stats["diffs"],
                 "monitor_violations": stats["violations"], "sanitizer_aborts_skipped": stats["crashes"],
